@@ -1,6 +1,7 @@
 import SuitVerif.Props.C08
 import SuitVerif.CborProofs
 import SuitVerif.Decode
+import SuitVerif.Typing
 /-! # C02 — envelope wire format is the SUIT/COSE encoding of the description
 
 Decomposed: (1) vocabulary = registry (C08, re-exported); (2) byte-string wrapping at exactly the prescribed layers and
@@ -99,5 +100,32 @@ theorem C02_map_order (es : List (KvKey × Node)) :
         intro heq
         exact hnd.1 (List.mem_map.mpr ⟨e, he, heq.symm⟩)
       simpa using this
+
+/-! ### byte-string layers exactly where the schema prescribes them, in every tree `from_obj` builds (typing theorem) -/
+
+/-- (4a) whatever `from_obj` builds for a class has the node shape the schema prescribes for that class: for every schema,
+description, file system and hash function -/
+theorem C02_typed (cx : Encode.Ctx) (fuel : Nat) (c : Cls) (o : Obj) (n : Node) (h : Encode.fromObj cx fuel c o = .ok n) :
+    Typing.HasTy cx.schema c n := Typing.fromObj_typed cx fuel c o n h
+
+/-- (4b) at a `bstr .cbor` class there is exactly one byte-string layer, around a tree of the inner class -/
+theorem C02_layer_present (cx : Encode.Ctx) (fuel : Nat) (c inner : Cls) (o : Obj) (n : Node)
+    (h : Encode.fromObj cx fuel c o = .ok n) (hc : cx.schema.ty c = some (.cbstr inner)) :
+    ∃ m, n = .wrapped m ∧ Typing.HasTy cx.schema inner m ∧ n.toVal = .bstr m.toBytes :=
+  let ⟨m, hm, ht⟩ := Typing.inv_cbstr (C02_typed cx fuel c o n h) hc
+  ⟨m, hm, ht, by rw [hm]; simp [Node.toVal]⟩
+
+/-- (4c) … and at a map, tag or tuple class there is none: the value is embedded directly -/
+theorem C02_layer_absent_map (cx : Encode.Ctx) (fuel : Nat) (c : Cls) (es : List Entry) (emb : Option String) (o : Obj) (n : Node)
+    (h : Encode.fromObj cx fuel c o = .ok n) (hc : cx.schema.ty c = some (.keyValue es emb)) :
+    ∃ r, n = .kv r ∧ n.toVal = .map (kvPairs r []) :=
+  let ⟨r, hr, _, _⟩ := Typing.inv_kv (C02_typed cx fuel c o n h) hc
+  ⟨r, hr, by rw [hr]; simp [Node.toVal]⟩
+
+theorem C02_layer_absent_tag (cx : Encode.Ctx) (fuel : Nat) (c : Cls) (t : Nat) (name : String) (child : Cls) (o : Obj) (n : Node)
+    (h : Encode.fromObj cx fuel c o = .ok n) (hc : cx.schema.ty c = some (.tag t name child)) :
+    ∃ m, n = .tagged t name m ∧ n.toVal = .tag t m.toVal :=
+  let ⟨m, hm, _⟩ := Typing.inv_tag (C02_typed cx fuel c o n h) hc
+  ⟨m, hm, by rw [hm]; simp [Node.toVal]⟩
 
 end SuitVerif.Props.C02
